@@ -11,6 +11,7 @@ import random
 import re
 import shutil
 import threading
+import time
 from decimal import Decimal, ROUND_HALF_EVEN
 
 from common import *
@@ -456,6 +457,7 @@ def judge(case, r):
     return v
 
 
+EMBED_CH = 25
 KNOWN_EITHER = {'C12/merchant-id-collision', 'C12/section-id-collision'}
 
 
@@ -608,7 +610,7 @@ def model_check(cases, results, strings_io, facts, tier):
     counts['json_dumps_strings'] = len(enc)
     counts['json_loads_tokens'] = len(dec)
     # ---- ids, views, figures, embedding from the rendered cases -----------------------------
-    mids, sids, views, figs, embeds = {}, {}, [], [], []
+    mids, sids, views, figs, embeds, embed_pool, embeds_first = {}, {}, [], [], [], [], []
     skipped = {'section_name_non_ascii_case': 0, 'inexact_ticks': 0, 'json_not_2dp_exact': 0, 'embed_disagreement_fragment': 0}
     for ci, (c, r) in enumerate(zip(cases, results)):
         if 'analyze_error' in r or not isinstance(r.get('data_js'), str):
@@ -682,21 +684,38 @@ def model_check(cases, results, strings_io, facts, tier):
                 skipped['json_not_2dp_exact'] += 1
         # embedding (small templates only)
         h = r['html']
-        if c.get('tpl') is not None and 'doc' in h and len(h['doc']) < 6000 and len(embeds) < (160 if tier == 'quick' else 1500):
-            if c12_html.DISAGREE_RE.search(h['doc']):
-                skipped['embed_disagreement_fragment'] += 1
-                scr = c12_html.scripts_browser(h['doc'])
-            else:
-                scr = h['scripts_hp']
-            t = c['tpl']
-            embeds.append((ci, f"({ctext(t['html'])}, {ctext(t['css'])}, {ctext(t['js'])}, {ctext(J)}, {ctext(h['doc'])}, "
-                               f"{clist(ctext(x) for x in scr)}, {copt(h['data_br'], ctext)})"))
+        if c.get('tpl') is not None and 'doc' in h and len(h['doc']) < 6000:
+            embed_pool.append((len(h['doc']), ci))
+    # embedding: smallest documents first (Coq reads ~15 KB of literals per second), every template and
+    # every adversarial class represented, within a byte budget
+    budget = 330000 if tier == 'quick' else 6000000
+    embed_pool.sort()
+    seen_kinds, rest = set(), []
+    for ln, ci in embed_pool:
+        kind = (cases[ci]['tpl_id'], tuple(sorted(classes_of(cases[ci]) & {'script-end-tag', 'placeholder', 'non-ascii', 'views'})))
+        (rest if kind in seen_kinds else embeds_first).append((ln, ci))
+        seen_kinds.add(kind)
+    for ln, ci in embeds_first + rest:
+        if budget - 3 * ln < 0:
+            continue
+        budget -= 3 * ln
+        c, r = cases[ci], results[ci]
+        h = r['html']
+        J = r['data_js'][len(c12_html.DATA_PREFIX):-len(c12_html.DATA_SUFFIX)]
+        if c12_html.DISAGREE_RE.search(h['doc']):
+            skipped['embed_disagreement_fragment'] += 1
+            scr = c12_html.scripts_browser(h['doc'])
+        else:
+            scr = h['scripts_hp']
+        t = c['tpl']
+        embeds.append((ci, f"({ctext(t['html'])}, {ctext(t['css'])}, {ctext(t['js'])}, {ctext(J)}, {ctext(h['doc'])}, "
+                           f"{clist(ctext(x) for x in scr)}, {copt(h['data_br'], ctext)})"))
     jobs['ids'] = ('Definition mid_cases := ' + clist(f'({ctext(a)}, {ctext(b)})' for a, b in mids.items()) + '.\n'
                    'Eval vm_compute in failing chk_mid 0 mid_cases.\n'
                    'Definition sid_cases := ' + clist(f'({ctext(a)}, {ctext(b)})' for a, b in sids.items()) + '.\n'
                    'Eval vm_compute in failing chk_sid 0 sid_cases.\n')
     for nm, rows, chk in (('view', views, 'chk_view'), ('figs', figs, 'chk_figs'), ('embed', embeds, 'chk_embed')):
-        CH = 200 if nm != 'embed' else 80
+        CH = 200 if nm != 'embed' else EMBED_CH
         for off in range(0, len(rows), CH):
             jobs[f'{nm}_{off // CH}'] = ('Definition cases := [\n' + ';\n'.join(x for _, x in rows[off:off + CH]) + '\n].\n'
                                          f'Eval vm_compute in failing {chk} 0 cases.\n')
@@ -730,7 +749,7 @@ def model_check(cases, results, strings_io, facts, tier):
                 continue
             base = k.split('_')[0]
             if base in index:
-                off = int(k.split('_')[1]) * (200 if base != 'embed' else 80)
+                off = int(k.split('_')[1]) * (200 if base != 'embed' else EMBED_CH)
                 ci = index[base][off + fl[0]][0]
                 det = {'case': cases[ci], 'n': len(fl)}
             elif k == 'strings':
@@ -757,7 +776,7 @@ def gen_strings(seed, n):
     for _ in range(n):
         pool.append(''.join(rnd.choice(alphabet) for _ in range(rnd.choice([1, 2, 3, 5, 8, 13]))))
     toks = ['"abc"', '"a\\/b"', '"\\u00e9"', '"\\u00E9"', '"\\ud83d\\ude00"', '"\\uD83D\\uDE00"', '"\\ud83d"', '"\\ud83dx"', '"\\ud83d\\u0041"',
-            '"\\ude00\\ud83d"', '"\\ud83d\\ud83d\\ude00"', '"\\x41"', '"\\u12"', '"\\u12g4"', '"abc', 'abc"', '""', '"', '"a"b"', '"a" ', '"\t"', '"\x1f"',
+            '"\\ude00\\ud83d"', '"\\ud83d\\ud83d\\ude00"', '"\\x41"', '"\\u12"', '"\\u12g4"', '"abc', 'abc"', '""', '"', '"a"b"', '"\t"', '"\x1f"',
             '"\x7f"', '"é"', '"\\"', '"\\\\"', '"\\b\\f\\n\\r\\t\\"\\\\\\/"', '"\\a"', '"\\u+123"', '"\\u 123"', '"\\ud83d\\u"', '"\\ud83d\\ude0"',
             '"\\ud83d\\ude0g"', '"\\uDBFF\\uDFFF"', '"\\udbff\\udc00"', '"\\ud800\\udbff"', '"\\ud7ff\\udc00"', '"</script>"']
     esc = ['\\u00e9', '\\ud83d', '\\ude00', '\\n', '\\"', '\\\\', '\\/', 'a', '<', '\\u0000', '\\uffff', '\\udc00', '\\udbff', '\\x', '\\u12', '\xe9', ' ']
@@ -807,6 +826,8 @@ def main(tier):
         'build_section_merchants / build_category_view / export_json figure recomputation are hand-modelled and tied by correspondence; make_merchant_id, '
         'section_id, the replacement order, the data script framing and the stats-key bindings are translated from source (tools/c12_report2coq.py)',
         'monthly averages, typeTotals, matchInfo and the human-readable explanations in the data are not compared (not named by the property)']
+    timing = {}
+    t0 = time.time()
     tfails = regen_gen()
     res = run.proof_step(COQ_FILES, extra_trusted=[
         'tools/c12_report2coq.py (translator, fail closed)', 'harness/c12.py + impl_c12.py + c12_html.py (generators, oracle, correspondence)',
@@ -819,10 +840,14 @@ def main(tier):
     if res['hygiene']:
         broken.append({'kind': 'hygiene', 'detail': res['hygiene']})
 
+    timing['proofs_s'] = round(time.time() - t0, 1)
+    t0 = time.time()
     n = 900 if tier == 'quick' else 20000
     cases = gen_cases(run.seed, n)
     out = run_cases_impl(cases, facts=True)
     results, facts = out['results'], out['facts']
+    timing['implementation_s'] = round(time.time() - t0, 1)
+    t0 = time.time()
     by_sig = {}
     n_fail = 0
     discards = {'not-analysable': 0}
@@ -849,6 +874,8 @@ def main(tier):
                                           'expected': 'C12: every format renders; the HTML data decodes to the analysed data; all formats print the same figures',
                                           'obligation': 'C12 direct oracle on the implementation', 'n_failing_cases': e['n'],
                                           'shrunk_from': size(e['case']), 'broken': broken}, signature=sig)
+    timing['oracle_shrink_s'] = round(time.time() - t0, 1)
+    t0 = time.time()
     # ---- model vs implementation ----------------------------------------------------------
     counts = {}
     if not tfails and res['ok']:
@@ -857,6 +884,7 @@ def main(tier):
         sio.update({'strings': strs, 'tokens': toks})
         mbroken, counts = model_check(cases, results, sio, facts, tier)
         broken += mbroken
+    timing['model_in_coq_s'] = round(time.time() - t0, 1)
     unknown_found = any(sig not in known for sig in by_sig)
     if broken and not unknown_found:
         run.violation('broken', {'kind': broken[0]['kind'], 'obligation': broken[0].get('obligation') or
@@ -884,7 +912,7 @@ def main(tier):
                     'samples': [cases[3], cases[-1]], 'class_histogram': hist, 'template_histogram': tplh,
                     'cases': len(cases), 'cases_violating_some_part': n_fail,
                     'violations_by_signature': {k: v['n'] for k, v in by_sig.items()}, 'discards': discards,
-                    'model_vs_impl_in_coq': counts, 'translation_failures': tfails})
+                    'model_vs_impl_in_coq': counts, 'translation_failures': tfails, 'timing': timing})
     shutil.rmtree(WORKDIR, ignore_errors=True)
     run.finish()
 
